@@ -36,6 +36,10 @@ class Contract:
         self.inv = kw.pop('inv', [])
         self.xinv = kw.pop('xinv', True)
         self.frame_props = kw.pop('frame_props', None)
+        self.variant = kw.pop('variant', None)
+        self.pruning = kw.pop('pruning', True)
+        self.ghost_init = kw.pop('ghost_init', None)     # name of an engine routine initialising per-call ghosts
+        self.view = kw.pop('view', None)                 # variant used to look up callees' contracts
         if kw:
             raise TypeError(f'unknown contract fields {list(kw)}')
 
@@ -51,10 +55,12 @@ class Registry:
         self.scans = {}
 
     def contract(self, key, **kw):
-        if key in self.contracts:
-            raise KeyError(f'duplicate contract {key}')
+        full = key + ('#' + kw['variant'] if kw.get('variant') else '')
+        if full in self.contracts:
+            raise KeyError(f'duplicate contract {full}')
         c = Contract(key, **kw)
-        self.contracts[key] = c
+        c.full = full
+        self.contracts[full] = c
         return c
 
     def fields_of(self, cls, **fields):
@@ -64,12 +70,14 @@ class Registry:
     def lemma(self, name, props, fn, **kw):
         self.lemmas.append(dict(name=name, props=props, fn=fn, **kw))
 
-    def lookup(self, fi):
+    def lookup(self, fi, view=None):
         k = fi.key
         if fi.kind == 'property_get':
             k += '@get'
         elif fi.kind == 'property_set':
             k += '@set'
+        if view is not None and (k + '#' + view) in self.contracts:
+            return self.contracts[k + '#' + view]
         return self.contracts.get(k)
 
 
@@ -140,6 +148,26 @@ def typeof(x):
 
 def is_none(x):
     return x is None
+
+
+class _Ghost:
+    """Native ghost state: filled by the replay harness (instrumented user code), read by predicates."""
+
+    def __init__(self):
+        self.reset()
+
+    def reset(self):
+        from collections import defaultdict
+        self.runs = defaultdict(int)
+        self.last = None
+        self.log = []
+
+
+GHOST = _Ghost()
+
+
+def ghost():
+    return GHOST
 
 
 class Old:
